@@ -5,7 +5,7 @@ META = {
     'rule': ('The process executing the victim task is killed at every enumerated point of its save: each executed '
              'labtech line of the save path (LINE failpoint with action SIGKILL; first pass counts the lines), each '
              'write() call boundary of metadata and data file and a mid-write split (first half written), with the '
-             'buffer either flushed+fsynced or abandoned; SIGTERM instead of SIGKILL on a sample, and the real terminate-on-second-interrupt path (fork worker parks at line k of its save, the caller receives two real SIGINTs, Runner.stop() terminates it - also in a program whose inherited SIGTERM handler calls sys.exit, where the terminated worker must clean up after itself), and SIGTERM delivered to a fork worker whose program installed a SIGTERM handler calling sys.exit (the worker unwinds through the exception handlers of labtech); x cache format '
+             'buffer either flushed+fsynced or abandoned; SIGTERM instead of SIGKILL on a sample, a SIGINT sent to the fork worker itself in the middle of its save (it must be ignored and the save completed), and the real terminate-on-second-interrupt path (fork worker parks at line k of its save, the caller receives two real SIGINTs, Runner.stop() terminates it - also in a program whose inherited SIGTERM handler calls sys.exit, where the terminated worker must clean up after itself), and SIGTERM delivered to a fork worker whose program installed a SIGTERM handler calling sys.exit (the worker unwinds through the exception handlers of labtech); x cache format '
              '{pickle, json; for the graceful terminations also a pickle-cached type whose post_init rewrites a parameter} x {first save, overwrite} x shape {small, big} x victim {process running the serial '
              'backend (a forked sacrificial copy of the harness; a fresh interpreter on a sample), fork worker whose '
              'parent survives}. The verdict is taken afterwards by a process that never ran the save: is_cached, '
@@ -275,7 +275,8 @@ def run_case(case, rep=None, count_only=False):
             if s == 'mis-load':
                 continue
             if incomplete:
-                graceful = '-after-sigterm-with-exit-handler' if kill.get('handler') else ''
+                graceful = '-after-sigterm-with-exit-handler' if kill.get('handler') else \
+                    ('-after-sigint-to-the-worker' if kill.get('sig') == 'int' else '')
                 bad.append((f'incomplete-entry-reported-cached{graceful}/{case["mode"]}:{sig}', f'{s}: killed at {out["fired"]}; post-kill '
                             f'state {sig}; is_cached={reported}'))
             else:
@@ -322,6 +323,10 @@ def enumerate_cases(rep, stride, n_fresh):
                             cases.append(dict(cfg, kill={'kind': 'line', 'k': k, 'sig': 'park'}))
                         for k in range(2 * n // 3, n + 1, 2 if stride == 1 else 5):
                             cases.append(dict(cfg, kill={'kind': 'line', 'k': k, 'sig': 'park', 'handler': True}))
+                        # a SIGINT delivered to the worker itself in the middle of its save (terminal Ctrl-C reaches the
+                        # whole process group): labtech's workers ignore it and finish the save
+                        for k in range(3, n + 1, max(1, n // (6 if stride > 1 else 40))):
+                            cases.append(dict(cfg, kill={'kind': 'line', 'k': k, 'sig': 'int'}))
                         # graceful termination must clean up after itself: every line of the last third of the save
                         # (where files are open), a stride before that
                         for k in list(range(2, 2 * n // 3, max(1, n // 10))) + list(range(2 * n // 3, n + 1, 1 if stride == 1 else 2)):
@@ -372,6 +377,7 @@ def run_shard(rep):
             rep.foreign['two interrupts: run_tasks raised ' + r['raised_instead'][:80]] += 1
         rep.count(f"kills_{case['kill']['kind']}_{case['backend']}" + ('_fresh' if case.get('fresh_interpreter') else '')
                   + ('_terminate_on_second_interrupt' if case['kill'].get('sig') == 'park' else '')
+                  + ('_sigint_to_the_worker' if case['kill'].get('sig') == 'int' else '')
                   + ('_sigterm_with_exit_handler' if case['kill'].get('handler') else ''))
         rep.seen('kill_sites', f"{r['fired'].get('file')}:{r['fired'].get('func')}")
         rep.seen('post_kill_signatures', f"{case['mode']}:{r.get('signature')}")
